@@ -1710,7 +1710,7 @@ func IsSelectAllAggregate(query *Query) bool {
 
 func ExecSelect(query *Query, current []any) ([]any, error) {
 	copy := make([]any, 0)
-	if IsSelectAllAggregate(query) {
+	if IsSelectAllAggregate(query) && len(query.groupDefinition) == 0 {
 		// whole-table aggregates are computed over the rows that passed WHERE
 		rs, err := SelectExpr(query, Map{"*": current}, &query.selectDefinition)
 		if err != nil {
